@@ -269,10 +269,6 @@ func (s *Server) getTargetInfo(ctx context.Context, targets map[configapi.Target
 		// Otherwise, extract the information from the Configurable aspect
 		targetType = configapi.TargetType(configurable.Type)
 		targetVersion = configapi.TargetVersion(configurable.Version)
-
-		// Push through the information obtained from Configurable aspect via overrides,
-		// so it's available for downstream processing
-		overrides.Overrides[string(targetID)] = &configapi.TargetTypeVersion{TargetType: targetType, TargetVersion: targetVersion}
 	}
 
 	// Find the model plugin using the target type and version
@@ -281,6 +277,14 @@ func (s *Server) getTargetInfo(ctx context.Context, targets map[configapi.Target
 		err := errors.NewNotFound("model %s (v%s) plugin not found", targetType, targetVersion)
 		log.Warn(err)
 		return nil, err
+	}
+
+	// Push the type and version through the overrides, so they are available for downstream processing: as the
+	// model plugin itself spells them (the registry finds a plugin whatever the letter case), which is what Get
+	// files the target's configuration under
+	overrides.Overrides[string(targetID)] = &configapi.TargetTypeVersion{
+		TargetType:    configapi.TargetType(modelPlugin.GetInfo().Info.Name),
+		TargetVersion: configapi.TargetVersion(modelPlugin.GetInfo().Info.Version),
 	}
 
 	// Create and register target info using the model information
